@@ -529,3 +529,92 @@ Proof.
            split; [destruct (is_nil rest); [reflexivity|discriminate]|destruct t; [discriminate|discriminate]].
       * cbv beta iota zeta. apply Hafter. discriminate.
 Qed.
+
+Corollary Match_plain p ts s : Parses p ts -> plain s ->
+  exists b, Match p s = Ok b /\ (b = true <-> Matches ts s).
+Proof. intros HP Hp. apply MatchLoop_plain; [exact HP|exact Hp|lia]. Qed.
+
+Corollary Match_Glob p s : WellFormed p -> plain s -> exists b, Match p s = Ok b /\ (b = true <-> Glob p s).
+Proof.
+  intros [ts HP] Hp. destruct (Match_plain p ts s HP Hp) as (b & Hb & Hiff). exists b. split; [exact Hb|].
+  split.
+  - intros E. exists ts. split; [exact HP|apply Hiff; exact E].
+  - intros (ts' & HP' & Hm'). destruct (Match_plain p ts' s HP' Hp) as (b' & Hb' & Hiff').
+    rewrite Hb in Hb'. inversion Hb'; subst. apply Hiff'. exact Hm'.
+Qed.
+
+(** ** a well-formed pattern is answered for EVERY name (any bytes): never ErrBadPattern *)
+Lemma starLoop_total chunk items last : (forall x, matchChunk chunk x = Ok (PM items x)) ->
+  forall name, exists o, starLoop chunk last name = Ok o.
+Proof.
+  intros Hmc. induction name as [|c name IH]; [exists None; reflexivity|].
+  cbn [starLoop]. destruct (c =? Separator); [exists None; reflexivity|]. rewrite Hmc.
+  destruct (PM items name) as [t|]; [|exact IH].
+  destruct (last && negb (is_nil t)); [exact IH|exists (Some t); reflexivity].
+Qed.
+
+Theorem MatchLoop_total : forall fuel p ts s, Parses p ts -> (length p < fuel)%nat ->
+  exists b, MatchLoop fuel p s = Ok b.
+Proof.
+  induction fuel as [|f IH]; intros p ts s HP Hf; [lia|].
+  destruct p as [|c0 p0]; [exists (is_nil s); reflexivity|].
+  destruct (strip_stars_parses _ _ HP) as (k & p1 & ts1 & Hss & Hpp & Hts & Hp1 & Hns).
+  destruct (scan_parses _ _ Hp1) as (chunk & rest & items & ts' & Hsc & Hp1e & Hpc & Hn & Hpr & Hts1 & Hend).
+  assert (Hlen : (length rest < f)%nat).
+  { assert (Hl : length (c0 :: p0) = (k + (length chunk + length rest))%nat).
+    { rewrite Hpp, Hp1e, !app_length, repeat_length. reflexivity. }
+    assert (Hpos : (1 <= k + length chunk)%nat).
+    { destruct k; [|lia]. destruct chunk; [|cbn; lia]. exfalso. cbn in Hpp, Hp1e.
+      destruct Hend as [[Hr _]|(r & t2 & Hr & _)]; [rewrite Hp1e, Hr in Hpp; discriminate|apply (Hns r); rewrite Hp1e; exact Hr]. }
+    cbn [length] in Hl, Hf. lia. }
+  cbn [MatchLoop]. unfold scanChunk. rewrite Hss, Hsc. cbv beta iota zeta.
+  destruct ((0 <? k)%nat && is_nil chunk); [eexists; reflexivity|].
+  pose proof (fun x => matchChunk_parses chunk items x Hpc Hn) as Hmc. rewrite Hmc.
+  assert (Hafter : exists b, (if (0 <? k)%nat
+                   then match starLoop chunk (is_nil rest) s with
+                        | Ok (Some t) => MatchLoop f rest t
+                        | Ok None => Ok false
+                        | Bad => Bad | Fuel => Fuel | Panic => Panic
+                        end
+                   else Ok false) = Ok b).
+  { destruct (0 <? k)%nat; [|eexists; reflexivity].
+    destruct (starLoop_total chunk items (is_nil rest) Hmc s) as [[t|] Ho]; rewrite Ho; [|eexists; reflexivity].
+    exact (IH rest ts' t Hpr Hlen). }
+  destruct (PM items s) as [t|]; [|cbv beta iota zeta; exact Hafter].
+  destruct (is_nil t || negb (is_nil rest)); cbv beta iota zeta; [exact (IH rest ts' t Hpr Hlen)|exact Hafter].
+Qed.
+
+Corollary Match_total p s : WellFormed p -> exists b, Match p s = Ok b.
+Proof. intros [ts HP]. apply (MatchLoop_total _ p ts s HP). lia. Qed.
+
+Corollary Match_bad_malformed p s : Match p s = Bad -> ~ WellFormed p.
+Proof. intros Hb Hw. destruct (Match_total p s Hw) as [b E]. congruence. Qed.
+
+(** ** an executable decision procedure for [Matches], sound; used to refute matches *)
+Fixpoint matchesb (ts : list term) (s : bytes) : bool :=
+  match ts with
+  | [] => is_nil s
+  | TStar :: ts' =>
+      (fix star (s : bytes) : bool :=
+         matchesb ts' s || match s with c :: s' => negb (c =? Separator) && star s' | [] => false end) s
+  | TAny :: ts' =>
+      match s with c :: _ => negb (c =? Separator) && matchesb ts' (skipn (snd (decodeRune s)) s) | [] => false end
+  | TLit b :: ts' => match s with c :: s' => (b =? c) && matchesb ts' s' | [] => false end
+  | TClass neg rs :: ts' =>
+      match s with
+      | _ :: _ => Bool.eqb (in_ranges (fst (decodeRune s)) rs) (negb neg) && matchesb ts' (skipn (snd (decodeRune s)) s)
+      | [] => false
+      end
+  end.
+
+Lemma matchesb_sound ts s : Matches ts s -> matchesb ts s = true.
+Proof.
+  induction 1 as [|ts s1 s2 Hs1 Hm IH|ts c s r n Hc Hd Hm IH|ts c s Hm IH|ts neg rs c s r n Hd Hr Hm IH].
+  - reflexivity.
+  - cbn [matchesb]. induction Hs1 as [|c s1 Hc Hs1 IHs]; cbn [app].
+    + destruct s2; rewrite IH; reflexivity.
+    + rewrite IHs. replace (c =? Separator) with false by lia. cbn. apply orb_true_r.
+  - cbn [matchesb]. rewrite Hd. cbn [snd]. rewrite IH. replace (c =? Separator) with false by lia. reflexivity.
+  - cbn [matchesb]. rewrite IH. replace (c =? c) with true by lia. reflexivity.
+  - cbn [matchesb]. rewrite Hd. cbn [fst snd]. rewrite IH, Hr. destruct neg; reflexivity.
+Qed.
